@@ -61,8 +61,8 @@ def knownCtxRows : List (String × String × Prov) :=
     ("RepeatWith", "complete", .lastSeen),
     ("Timeout", "error", .lastSeen),                  -- atomic holder initialised with the subscriber context
     ("DefaultIfEmptyWithContext", "next", .outer),    -- the user-supplied default context (by definition)
-    ("ContextReset", "next", .outer), ("ContextReset", "error", .outer), ("ContextReset", "complete", .outer),
-    ("ToChannel", "next", .todo) ]                    -- KNOWN FINDING: the channel is handed out with context.TODO()
+    ("ContextReset", "next", .outer), ("ContextReset", "error", .outer), ("ContextReset", "complete", .outer) ]
+    -- (`ToChannel` handing its channel out with context.TODO() was repaired: fix commit cb2e183)
 
 def c09RowOk (r : OpFact) : Bool :=
   r.ctxRows.all (fun c => c.prov.good || knownCtxRows.contains (r.name, c.kind, c.prov))
@@ -70,9 +70,9 @@ def c09RowOk (r : OpFact) : Bool :=
 /-! ### C12: no per-operator-value or per-pipeline state written by a subscription -/
 
 def knownStateRows : List (String × String) :=
-  [ ("MergeMapIWithContext", "i"),           -- KNOWN FINDING: index declared in the application scope
-    ("OnErrorResumeNextWith", "finally"),    -- KNOWN FINDING: the captured slice is rewritten per application
-    ("ShareWithConfig", "refCount") ]        -- hot by definition
+  [ ("ShareWithConfig", "refCount") ]        -- hot by definition
+  -- repaired: MergeMapIWithContext's index in the application scope (fix commit 11bf135),
+  -- OnErrorResumeNextWith's captured slice rewritten per application (fix commit fd0e106)
 
 def c12RowOk (r : OpFact) : Bool :=
   r.stateRows.all (fun s => knownStateRows.contains (r.name, s.var))
